@@ -202,6 +202,48 @@ def o_stability(c):
     return None
 
 
+@oracle
+def o_arg_types(c):
+    """the profiles are a function of the NUMBERS supplied: whole-number heights, wind components, Obukhov length, roughness length given as
+    Python ints, numpy integers, float32 or 0-d arrays, and the wind pair as a tuple, a list or an array, give the profiles of the floats"""
+    from bldfm.pbl_model import vertical_profiles
+    kw = dict(ustar=c.get("ustar"), z0=c.get("z0"), mol=c["mol"], prsc=c["prsc"], closure=c["closure"], domain_height=c.get("dh"), stretch=c.get("st"), tke=c.get("tke"))
+    try:
+        zr, pr = vertical_profiles(c["n"], float(c["zm"]), (float(c["um"]), float(c["vm"])), **kw)
+    except Exception:  # noqa: BLE001
+        return None       # the float request itself is rejected (inconsistent forcing): nothing to compare
+    ref = np.concatenate([np.asarray(zr, dtype=float).ravel()] + [np.asarray(p_, dtype=float).ravel() for p_ in pr])
+    if not np.all(np.isfinite(ref)):
+        return None       # an inconsistent forcing (the float request itself is not finite): nothing to compare
+    scale = max(float(np.max(np.abs(ref))), 1e-300)
+    casts = dict(pyint=int, npint64=np.int64, npint32=np.int32, float32=np.float32, zerod=lambda x: np.array(float(x)), zerod_int=lambda x: np.array(int(x)))
+    variants = []
+    for nm, f in casts.items():
+        variants.append(("zm:" + nm, dict(zm=f(c["zm"]))))
+        variants.append(("wind:" + nm, dict(wind=(f(c["um"]), f(c["vm"])))))
+        variants.append(("mol:" + nm, dict(mol=f(c["mol"]))))
+        if c.get("z0") is not None:
+            variants.append(("z0:" + nm, dict(z0=f(c["z0"]))))
+        variants.append(("all:" + nm, dict(zm=f(c["zm"]), wind=(f(c["um"]), f(c["vm"])), mol=f(c["mol"]))))
+    variants += [("wind:list", dict(wind=[float(c["um"]), float(c["vm"])])), ("wind:array", dict(wind=np.array([float(c["um"]), float(c["vm"])]))),
+                 ("wind:int-array", dict(wind=np.array([int(c["um"]), int(c["vm"])]))), ("n:npint64", dict(n=np.int64(c["n"]))), ("n:npint32", dict(n=np.int32(c["n"])))]
+    for nm, ch in variants:
+        k2 = dict(kw)
+        for key in ("mol", "z0"):
+            if key in ch:
+                k2[key] = ch[key]
+        try:
+            z2, p2 = vertical_profiles(ch.get("n", c["n"]), ch.get("zm", float(c["zm"])), ch.get("wind", (float(c["um"]), float(c["vm"]))), **k2)
+        except Exception:  # noqa: BLE001
+            continue          # a rejected argument type is not a wrong result
+        got = np.concatenate([np.asarray(z2, dtype=float).ravel()] + [np.asarray(p_, dtype=float).ravel() for p_ in p2])
+        tol = 1e-5 if "float32" in nm else 1e-12
+        if got.shape != ref.shape or not np.all(np.abs(got - ref) <= tol * scale):
+            e = float(np.max(np.abs(got - ref))) / scale if got.shape == ref.shape else float("inf")
+            return fail("C09/arg-type", "the profiles for %s differ from those of the same numbers given as floats" % nm, None, "equal", e, tol)
+    return None
+
+
 def _load_corpus(name):
     import json
     import os
@@ -235,6 +277,15 @@ def run(rng, tier, deep):
         run_oracle(st, o_profiles, dict(c))
     for _ in range(budget(tier, deep, 150, 2000)):
         run_oracle(st, o_profiles, gen_case(rng))
+    for _ in range(budget(tier, deep, 12, 100)):
+        c = gen_case(rng)
+        # whole numbers, so that every type tried holds the same values exactly
+        c.update(zm=float(int(rng.integers(3, 30))), um=float(int(rng.integers(1, 7)) * int(rng.choice([-1, 1]))), vm=float(int(rng.integers(0, 6))),
+                 mol=float(int(rng.choice([-200, -50, -20, 40, 150, 1000]))))
+        if c.get("z0") is not None:
+            c["z0"] = 1.0
+        c["dh"], c["st"] = None, None
+        run_oracle(st, o_arg_types, c)
     for _ in range(budget(tier, deep, 60, 800)):
         others = [float(v) for v in rng.choice([rng.uniform(-40, -1e-3), rng.uniform(1e-3, 15), 0.0], size=int(rng.integers(1, 5)))] if rng.random() < 0.5 else None
         if others:
@@ -243,4 +294,4 @@ def run(rng, tier, deep):
     return finish(st, "closures MOST/MOSTM/CONSTANT/OAAHOC x ustar/z0 forcing x stability of both signs up to neutral x 1..40 layers x Prandtl numbers x "
                   "default and user-chosen stretch/domain height (inside the valid range) + a malformed stream (bad closure, both/neither of z0, ustar); "
                   "correspondence of psi, phi and the whole vertical_profiles output incl. the grid length (5e-9; worst gap observed on the clean tree 2e-11, from log cancellation); oracle: grid/wind/K identities, "
-                  "z0<->ustar round trip, psi vs quad of (phi_M-1)/x, continuity at neutral, array arguments mixing stable and unstable values vs element-wise calls, agreement with the KM module's copies", deep, 5e-9)
+                  "z0<->ustar round trip, psi vs quad of (phi_M-1)/x, continuity at neutral, array arguments mixing stable and unstable values vs element-wise calls, agreement with the KM module's copies, whole-number arguments as int / numpy integer / float32 / 0-d array and the wind pair as tuple / list / array", deep, 5e-9)
